@@ -112,6 +112,38 @@ contracts = {
                      "__CPROVER_decreases(g_stack.size_)\n"}},
 }
 
+# the same statement once more without any helper contract: the real Detach with everything it calls inlined, on a stack of capacity 4 with
+# arbitrary contents (bounded stand-in; robust against refactorings of the helpers the modular proof relies on by name)
+H_DETACH_B = r"""
+Context *xc_new_Context_array(size_t n) { Context *p = (Context *)malloc(n * sizeof(Context)); __CPROVER_assume(p != 0); for (size_t i = 0; i < n; i++) ID(p[i]) = 0; return p; }
+void h_Detach_bounded(void)
+{
+  Context *arr = (Context *)malloc(4 * sizeof(Context)); __CPROVER_assume(arr != 0);
+  Context old[4]; size_t n; Token tok; ThreadLocalContextStorage st;
+  xc_havoc_ghosts();
+  __CPROVER_assume(n <= 4);
+  g_stack.base_ = arr; g_stack.size_ = n; g_stack.capacity_ = 4;
+  for (size_t i = 0; i < 4; i++) { if (i >= n) ID(arr[i]) = 0; old[i] = arr[i]; }     /* slots above the top hold the empty context */
+  /* the most recent frame equal to the token, if any */
+  int found = 0; size_t j = 0;
+  for (size_t i = 0; i < 4; i++) if (i < n && ID(old[i]) == ID(tok.context_)) { found = 1; j = i; }
+  bool r = ThreadLocalContextStorage_Detach(&st, &tok);
+  if (found)
+  {
+    __CPROVER_assert(r, "a token that is on the stack is detached");
+    __CPROVER_assert(g_stack.size_ == j, "the context current before the matching (most recent) Attach is restored");
+  }
+  else
+  {
+    __CPROVER_assert(g_stack.size_ == n, "a token that is not on the stack changes nothing");
+    __CPROVER_assert(!r || (n == 0 && ID(tok.context_) == 0), "a token that is not on the stack is refused");
+  }
+  size_t k; __CPROVER_assume(k < g_stack.size_);
+  __CPROVER_assert(k < n && ID(g_stack.base_[k]) == ID(old[k]), "the frames below are untouched");
+  __CPROVER_assert(0, "XC_CANARY end of harness reachable");
+}
+"""
+
 proofs = [
     Proof("Stack_Pop", [("Stack::Pop", 0)], enforce="Stack_Pop", replace=["Stack_Resize", "xc_new_Context_array"]),
     Proof("Stack_Top", [("Stack::Top", 0)], enforce="Stack_Top"),
@@ -122,6 +154,9 @@ proofs = [
     Proof("Attach", [("ThreadLocalContextStorage::Attach", 1)], enforce="ThreadLocalContextStorage_Attach", replace=["Stack_Push", "xc_new_Token"]),
     Proof("Detach", [("ThreadLocalContextStorage::Detach", 1)], enforce="ThreadLocalContextStorage_Detach",
           replace=["Stack_Pop", "Stack_Top", "Stack_Contains"]),
+    Proof("Detach_bounded", [("ThreadLocalContextStorage::Detach", 1)], harness=H_DETACH_B, loop_contracts=False, unwind=10, level="bounded",
+          bound_note="stack capacity 4, every size 0..4, arbitrary context identities and token; no helper contracts (callees inlined)",
+          desc="Detach against the sequence view, helpers inlined"),
 ]
 trusted = ("Context as the identity of its head node (Context::operator== compares head_)", "thread_local: one stack per thread")
 assumptions = (
@@ -132,3 +167,22 @@ assumptions = (
 )
 not_covered = ("Context::SetValue/SetValues/GetValue/HasKey (linked list of shared_ptr nodes)", "Scope (RAII) and Token destructor calling Detach",
                "RuntimeContext static wrappers", "visibility across threads")
+
+DRIVER = ("c10_native", ["c10_native.cc"])
+
+
+def refute_search(mod, proof, violations, ix, workdir, seed):
+    """directed native search on the real RuntimeContext: every Attach sequence over three contexts up to length 5, every token detached"""
+    import os, re as _re, subprocess
+    binpath = R.build_native(DRIVER[0], [os.path.join(R.core.HERE, "replay", s) for s in DRIVER[1]], ["-O1"])
+    full = subprocess.run([binpath, "search"], stdout=subprocess.PIPE, stderr=subprocess.STDOUT, text=True, timeout=600).stdout
+    m = _re.findall(r"^FOUND (.*)$", full, _re.M)
+    if not m:
+        return None
+    args = m[-1].split()
+    r = R.native_check(DRIVER[0], DRIVER[1], args, ["-O1"])
+    r["input"] = {"driver_args": args, "meaning": "seq <letters a-c = Attach(context)> <n>: Detach the token of Attach number n, then unwind", "found_by": "directed native search (refute mode)"}
+    return r if r["reproduced"] else None
+
+
+refuters = {p.name: refute_search for p in proofs}
